@@ -202,6 +202,11 @@ def numberCore (s : List Char) (neg signed : Bool) (mant : List Char) (origExp :
   let m := if 0 < prec then roundP m0 prec.toNat else m0
   printNum s neg (s.length - ((if signed then 1 else 0) + dropped)) m
 
+/-- the exponent after the mantissa: none present means 0, otherwise `e`/`E` followed by `ParseInt` -/
+def expOfRest : List Char → Option Int
+  | [] => some 0
+  | _ :: r => parseExp r
+
 /-- `minify.Number(num, prec)` -/
 def number (s : List Char) (prec : Int) : List Char :=
   if s.length ≤ 1 then s else
@@ -209,8 +214,7 @@ def number (s : List Char) (prec : Int) : List Char :=
   let signed := neg || s.head? == some '+'
   let body := if signed then s.drop 1 else s
   let mant := body.takeWhile notE
-  let expo : Option Int := match body.dropWhile notE with | [] => some 0 | _ :: r => parseExp r
-  match expo with
+  match expOfRest (body.dropWhile notE) with
   | none => s
   | some origExp => numberCore s neg signed mant origExp prec
 
